@@ -361,8 +361,16 @@ func judgeCLI(c *fw.Ctx, cc *CLICase) {
 		args = append(args, "--overwrite")
 	}
 	before := listFiles(outDir)
+	// every fourth run is configured through the environment variables the tool documents for its flags
+	var cfgEnv []string
+	if fw.NewRng(cc.Seed^0xe17).Chance(1, 4) {
+		cfgEnv = []string{"SOURCE_GPKG=" + src, "TARGET_GPKG=" + filepath.Join(outDir, pl.targetRel), "TILEMATRIXSET=" + pl.tmsName, "TILEMATRICES=" + string(zb), "PAGESIZE=" + strconv.Itoa(pl.page),
+			"KEEPPOINTSANDLINES=" + strconv.FormatBool(pl.keep), "IGNOREOUTSIDEGRID=" + strconv.FormatBool(pl.iog), "REVERSEWINDINGORDER=" + strconv.FormatBool(pl.rwo), "OVERWRITE=" + strconv.FormatBool(pl.overwrite)}
+		args = []string{}
+		c.Rec.Count("configured_through_environment_variables")
+	}
 	cmd := exec.Command("timeout", append([]string{"-s", "QUIT", "300", bin}, args...)...)
-	cmd.Env = append(os.Environ(), "TEXEL_VERIF_TMS_DIR="+tmsDir)
+	cmd.Env = append(append(os.Environ(), "TEXEL_VERIF_TMS_DIR="+tmsDir), cfgEnv...)
 	if cc.Race {
 		cmd.Env = append(cmd.Env, "GORACE=halt_on_error=0 log_path="+filepath.Join(os.Getenv("VERIF_RUN_TMP"), "race"))
 	}
@@ -378,8 +386,12 @@ func judgeCLI(c *fw.Ctx, cc *CLICase) {
 	}
 	c.Rec.Eval()
 	after := listFiles(outDir)
-	desc := fmt.Sprintf("texel %s (exit %d)", strings.Join(args[2:], " "), code)
-	detail := map[string]any{"args": args, "exit": code, "stderr_tail": tailS(stderr.String(), 1500), "files_after": after}
+	shown := args
+	if len(cfgEnv) > 0 {
+		shown = append([]string{"", ""}, cfgEnv[1:]...)
+	}
+	desc := fmt.Sprintf("texel %s (exit %d)", strings.Join(shown[2:], " "), code)
+	detail := map[string]any{"args": args, "env": cfgEnv, "exit": code, "stderr_tail": tailS(stderr.String(), 1500), "files_after": after}
 	c.Rec.Count("tms:" + pl.tmsName)
 	c.Rec.Count(fmt.Sprintf("page_size:%d", pl.page))
 	c.Rec.Count(fmt.Sprintf("ids:%d", len(pl.ids)))
@@ -596,9 +608,9 @@ func init() {
 				p.Merged.Violations = append(p.Merged.Violations, fw.Violation{Property: "C13", Class: "data-race", Msg: "race detector report from the race-built texel binary:\n" + tailS(blk, 2500), Case: json.RawMessage(`{"note":"race report; schedule dependent"}`)})
 			}
 		},
-		Rule: "the real binary (built from /repo with -tags verif) on generated sources: 1-3 tables (POLYGON/MULTIPOLYGON tables with generated polygons placed in NetherlandsRDNewQuad, WebMercatorQuad, EuropeanETRS89_LAEAQuad or a synthetic dyadic set loaded through hook H2; POINT/LINESTRING tables), 0-40 features, 1-3 ids in random order, page sizes 1/2/3/1000, all flag combinations, target names with 0-2 dots in sub-directories, pre-existing target files with sentinel tables/rows when overwrite is on; oracle: exit status, exactly the files <name>_<id><ext>, per file the same tables as the source, polygon tables row by row = attributes + what snap.SnapPolygon (called in-process) returns for that id (feature omitted when nothing, several polygons -> MULTIPOLYGON, parts merged), other tables row-for-row copies, nothing of the planted file left; outside-grid polygon without the ignore flag -> non-zero exit; built-in non-quadtree sets -> non-zero exit and no target file; non-trivial = run whose polygon tables produced rows (or a demanded failure)",
+		Rule: "the real binary (built from /repo with -tags verif) on generated sources: 1-3 tables (POLYGON/MULTIPOLYGON tables with generated polygons placed in NetherlandsRDNewQuad, WebMercatorQuad, EuropeanETRS89_LAEAQuad or a synthetic dyadic set loaded through hook H2; POINT/LINESTRING tables), 0-40 features, 1-3 ids in random order, page sizes 1/2/3/1000, all flag combinations (every fourth run configured through the documented environment variables instead of the command line), target names with 0-2 dots in sub-directories, pre-existing target files with sentinel tables/rows when overwrite is on; oracle: exit status, exactly the files <name>_<id><ext>, per file the same tables as the source, polygon tables row by row = attributes + what snap.SnapPolygon (called in-process) returns for that id (feature omitted when nothing, several polygons -> MULTIPOLYGON, parts merged), other tables row-for-row copies, nothing of the planted file left; outside-grid polygon without the ignore flag -> non-zero exit; built-in non-quadtree sets -> non-zero exit and no target file; non-trivial = run whose polygon tables produced rows (or a demanded failure)",
 		Required: func(t string) []string {
-			r := []string{"polygon_tables_compared", "copied_tables_compared", "class:overwrite_of_planted_target", "features_omitted_at_some_matrix", "polygon_delivered_as_multipolygon", "target_in_subdirectory", "rows_compared"}
+			r := []string{"configured_through_environment_variables", "polygon_tables_compared", "copied_tables_compared", "class:overwrite_of_planted_target", "features_omitted_at_some_matrix", "polygon_delivered_as_multipolygon", "target_in_subdirectory", "rows_compared"}
 			if t == "thorough" {
 				r = append(r, "class:non_quadtree_set", "class:outside_polygon_without_ignore", "class:outside_polygon_ignored", "dots_in_target_name:0", "dots_in_target_name:2")
 			}
